@@ -25,7 +25,7 @@ PROFILE = {"w": {"appendm": 14, "appendc": 6, "assignstr": 6, "delete": 5, "hook
 
 
 def rows(rng, k):
-    out = []
+    out = [["-fhook-per-state"]]
     for _ in range(k):
         r = []
         if rng.random() < 0.6:
@@ -88,11 +88,19 @@ def run(ctx: Ctx):
     nrows = 5 if quick else 14
     pool, st = work.generated_pool(rng, n_gen, profile=PROFILE)
     ypool, st2 = work.generated_pool(rng, 4 if quick else 40, profile=dict(PROFILE, yields=True, w=dict(PROFILE["w"], yield_=8)))
+    epool, st3 = work.generated_pool(rng, 8 if quick else 60, profile=dict(PROFILE, eof=True, end_prob=0.3, w=dict(PROFILE["w"], hook=16, try_=10)))
     cases = []
-    for ast, src, args, r in pool + ypool:
+    for ast, src, args, r in pool + ypool + epool:
         base = args + ["-O2"]
         variants = [("default", src, base)] + [("row", src, base + row) for row in rows(rng, nrows)]
         cases.append(diff.Case("gen", variants, ast=ast))
+    # hooks and outputs on end-of-input transitions (end() is part of every run of an EOF build)
+    for src in ('out int n = 0;\nhook h0;\nhook h1;\nparser {\n "ab";\n h0();\n end;\n h1();\n n = 3;\n}\n',
+                'out str[4] s;\nhook h0;\nhook h1;\nparser {\n case {\n  end -> {\n   h0();\n  }\n  /x+/ -> {\n   s += "k";\n   h1();\n   end;\n   h0();\n  }\n }\n}\n',
+                'out int n = 0;\nhook h0;\nparser {\n try {\n  "abc";\n }\n catch {\n  wait end;\n  n = 2;\n  h0();\n }\n}\n',
+                'out str[3] s;\nhook h0;\nparser {\n s += /[a-c]+/;\n end;\n if s.len == 2 {\n  h0();\n }\n}\n'):
+        base = ["-feof-support", "-O2"]
+        cases.append(diff.Case("eof-hooks", [("default", src, base)] + [("row", src, base + row) for row in rows(rng, 3)], seeds=[b"ab", b"a", b"xx", b"abc", b"abx", b"cab"]))
     for fn, src, args, seeds in work.corpus():
         b = fn.rsplit("/", 1)[-1]
         if quick and b in ("gtfs-realtime.nmfu", "ttc_rdf.nmfu"):
